@@ -45,7 +45,7 @@ static void loopOnce(galois::substrate::TerminationDetection& term, unsigned n, 
     unsigned tid = galois::substrate::ThreadPool::getTID();
     vh::Rng r(seed * 31 + tid);
     term.initializeThread();
-    L->ev(tid, ks("ev", "init") + "," + kv("t", tid));
+    // (init / report events are not logged: volume)
     barrier.wait();
     while (true) {
       bool did = false;
@@ -65,7 +65,7 @@ static void loopOnce(galois::substrate::TerminationDetection& term, unsigned n, 
         L->ev(tid, ks("ev", "done") + "," + kv("t", tid));
       }
       YIELD();
-      if (did) L->ev(tid, ks("ev", "report") + "," + kv("t", tid) + "," + kv("did", 1)); // idle reports are not logged (volume)
+      // reports are not logged (volume); the ledger events and the observations decide NoEarlyAnnounce
       term.localTermination(did);
       if (term.globalTermination()) {
         L->ev(tid, ks("ev", "observe") + "," + kv("t", tid));
@@ -90,7 +90,7 @@ int main(int argc, char** argv) {
 #ifdef VERIF_FLAVOUR_C
   verif::on_abort(onAbort);
 #endif
-  unsigned execs = mode == "ctl" ? (thorough ? 1500 : 150) : (thorough ? 300 : 40);
+  unsigned execs = mode == "ctl" ? (thorough ? 6000 : 1200) : (thorough ? 300 : 40);
   TreeDet tree;
   for (int det = 0; det < 2; ++det)
     for (unsigned n = 1; n <= maxN; ++n)
